@@ -190,14 +190,13 @@ def _x1(rc: RuleCtx, m: rm.LoopModel, tag: str):
     for o in res.obligations:
         if o.rule == "R2":
             o.rule = "X1"
-    augs = [e for e in m.events if e.kind == "aug" and e.target == "length"]
-    lo, hi = count_true([e.guard for e in augs])
-    good = (lo, hi) == (1, 1) and all(e.args[0] == "-" and isinstance(e.args[1], Rat) and e.args[1].is_const() == 1 for e in augs)
+    new_len = m.env_post.get("length")
+    good = isinstance(new_len, Rat) and new_len.equals(sym("length") - C(1))
     if good:
-        res.ok("X1", f"{tag}:budget", "exactly one `length -= 1` per iteration")
+        res.ok("X1", f"{tag}:budget", "the budget decreases by exactly 1 on every iteration")
     else:
         res.violation("X1", m.fi.module, m.fi.name, m.loop, f"{tag}: the budget is not decremented by exactly 1 on every iteration",
-                      str([(e.args[0], str(e.args[1]), str(e.guard)) for e in augs]), "length -= 1 once per iteration", construct="budget decrement")
+                      _short(new_len, 120), "length - 1", construct="budget decrement")
     # loop test
     fr = Frame(m.ev, m.fi, 0)
     env = dict(m.env_pre)
